@@ -686,11 +686,11 @@ func (g *c06Gen) real(thorough bool, s *zz.Session) {
 	}
 	g.finish(all, 1, int(B), int(B)+1)
 
-	// W2: records whose total length sits on the varint-width boundaries (partial batch: 127..129; full batch: 16383..16385)
+	// W2: records whose total length sits on the varint-width boundaries (partial batch: 127, 128, 130; full batch: 16383..16385)
 	g.begin("real-record-lengths", "rand 8")
 	addr := uint64(100)
 	var lenAddrs []uint64
-	for _, target := range []int{127, 128, 129} {
+	for _, target := range []int{127, 128, 130} {
 		for _, n := range []int{9, 12, 15} {
 			if es := c06SearchTotal(g.rng, n, target); es != nil {
 				for _, e := range es {
